@@ -107,6 +107,9 @@ func (p prop) RunCase(c *fw.Ctx, rng *fw.RNG, batch, i int) {
 			c.Seen(fw.Mix(fw.HashString(schemagen.Describe(ts)+t.Name), tv.Hash()), true)
 			// each engine against the reference (C08 monitor on generated code), then lock-step
 			typedmon.CheckViews(c, gen, ts, t, tv, rng)
+			if k < 6 {
+				typedmon.CheckOtherLevelNames(c, gen, ts, t, tv)
+			}
 			if k%3 == 0 {
 				typedmon.CheckWrongKind(c, gen, ts, t, tv)
 			} else if k%3 == 1 {
@@ -117,7 +120,7 @@ func (p prop) RunCase(c *fw.Ctx, rng *fw.RNG, batch, i int) {
 					typedmon.MutatedDecodes(c, "gengo:"+t.Kind, ts, t, rp, rng, &cur)
 				}
 			}
-			if t.Kind == "map" {
+			if t.Kind == "map" || (t.Kind == "struct" && k%2 == 0) {
 				for _, lvl := range []bool{false, true} {
 					typedmon.CheckRejectedKey(c, gen, ts, t, tv, lvl, rng)
 					typedmon.CheckRejectedKey(c, bind, ts, t, tv, lvl, rng)
